@@ -112,7 +112,7 @@ theorem tie_descriptor_offsets :
 theorem tie_shape_NewFirmwareVolume :
     Gen.UefiParse.sliceshapes_NewFirmwareVolume = ["[:h]", "[:h]", "[:h]", "[l:]", "[l:]"] ∧
     Gen.UefiParse.cmpops_NewFirmwareVolume =
-      ["!= 0", "<", "<", "<", "<=", "== 0", "== 0", "== 0", ">", ">="] ∧
+      ["!= 0", "<", "<", "<", "<=", "== 0", "== 0", "== 0", ">", ">", ">="] ∧
     Gen.UefiParse.callcount_NewFirmwareVolume_Align8 = 2 ∧
     Gen.UefiParse.callcount_NewFirmwareVolume_NewFile = 1 := by decide
 
@@ -125,7 +125,7 @@ theorem tie_shape_NewSection :
     Gen.UefiParse.sliceshapes_NewSection =
       ["[:h]", "[:h]", "[l:]", "[l:]", "[l:]", "[l:]", "[l:]", "[l:]", "[l:h]"] ∧
     Gen.UefiParse.cmpops_NewSection =
-      ["!= 0", "<", "<=", "<=", "<=", "<=", "==", "== 4294967295", ">", ">"] ∧
+      ["!= 0", "<", "<=", "<=", "<=", "<=", "==", "== 0", "== 4294967295", ">", ">", ">"] ∧
     Gen.UefiParse.callcount_NewSection_Align4 = 1 := by decide
 
 theorem tie_shape_NewBIOSRegion :
